@@ -156,6 +156,8 @@ pub struct IoPolicy {
     pub write_zero: bool,
     pub read_err: bool,
     pub read_eof: bool,
+    /// offer "the peer's next octets are not HTTP/2" (a frame that is a connection error for any receiver)
+    pub read_garbage: bool,
     pub shutdown_alts: bool,
     /// writes are blocked (Pending, no choice) until `unblock` — models back-pressure
     pub write_blocked: bool,
@@ -179,6 +181,7 @@ impl Default for IoPolicy {
             write_zero: false,
             read_err: false,
             read_eof: false,
+            read_garbage: false,
             shutdown_alts: false,
             write_blocked: false,
             error_on_peer_gone: false,
@@ -493,6 +496,7 @@ enum ROpt {
     Pending,
     Err,
     Eof,
+    Garbage,
 }
 
 impl AsyncRead for SimIo {
@@ -558,9 +562,21 @@ impl AsyncRead for SimIo {
         if pol.read_eof {
             opts.push(ROpt::Eof);
         }
+        if pol.read_garbage && buf.remaining() >= 10 {
+            opts.push(ROpt::Garbage);
+        }
         let k = s.choose(tag::READ, opts.len());
         let n = match opts[k] {
             ROpt::All => full,
+            ROpt::Garbage => {
+                // instead of what the peer wrote: a SETTINGS frame of length 1 (FRAME_SIZE_ERROR for every receiver), then
+                // nothing more in this direction
+                s.pipes[from].buf.clear();
+                s.pipes[from].closed = true;
+                s.iolog.push(IoEv { side: self.side, kind: IoEvKind::Error("read-garbage") });
+                buf.put_slice(&[0, 0, 1, 4, 0, 0, 0, 0, 0, 0xff]);
+                return Poll::Ready(Ok(()));
+            }
             ROpt::Bytes(k) => {
                 s.partial_reads += 1;
                 k
